@@ -262,11 +262,18 @@ def cmd_replay(path, verbose=True):
 def build_variants(vs):
     bins = {}
     for v in vs:
+        if v == 'valgrind':
+            continue
         try:
             bins[v] = build.build(v)
         except build.BuildError as e:
             sys.stdout.write('BUILD-FAILED variant=%s\n%s\n' % (v, e.log[-4000:]))
             sys.exit(2)
+    if 'valgrind' in vs:
+        # the plain binary under memcheck; junk fill is switched off by the plans that use it so that
+        # memcheck's own definedness tracking is the oracle for uninitialised-value use
+        bins['valgrind'] = ['valgrind', '-q', '--error-exitcode=99', '--exit-on-first-error=yes', '--leak-check=no',
+                            '--track-origins=no', '--max-stackframe=1100000000', '--main-stacksize=67108864', bins['plain']]
     return bins
 
 
